@@ -9,7 +9,10 @@ queue (`inbox`).  `leaked` is a ghost counter: qubitList entries no unit
 module knows.  The model mirrors the code after the qalloc roll-back repair
 and AS IT IS for F13: a `create_epr` / `recv_epr` that fails (or is postponed
 by netqasm) after `cmd_new` / after claiming the delivered half and before the
-hand-over to the unit module leaves its qubits in `qubitList` (`leaked` grows).
+hand-over to the unit module leaves its qubits in `qubitList` (`leaked` grows);
+netqasm's stale request record / stuck response after such a failure make later
+requests fail at the hand-over as well (`St.stale`, `St.broken`), which is the
+same class.
 
 What is NOT in the model: simulated qubits and registers behind the held
 qubits (C02's invariant: one simulated qubit per held qubit network-wide, no
